@@ -145,6 +145,18 @@ func ruleR04c(c *Ctx) {
 								if fl, ok := x.(*ast.FuncLit); ok && body == nil {
 									body = fl.Body.List
 								}
+								// ... or the factory returns a bound method: return prefix(name).apply
+								if rs, ok := x.(*ast.ReturnStmt); ok && body == nil && len(rs.Results) == 1 {
+									if se, ok := ast.Unparen(rs.Results[0]).(*ast.SelectorExpr); ok {
+										if m, ok := info.Uses[se.Sel].(*types.Func); ok {
+											for _, md := range c.allFuncDecls("soyjs") {
+												if info.Defs[md.Name] == types.Object(m) {
+													body = md.Body.List
+												}
+											}
+										}
+									}
+								}
 								return true
 							})
 						}
